@@ -19,6 +19,7 @@ type Env struct {
 	old  *State
 	pure bool // spec-function body: no heap access
 	pkg  *types.Package
+	inPat bool // translating a quantifier pattern: only uninterpreted terms (no connectives)
 }
 
 func (e *Env) child() *Env {
@@ -277,12 +278,14 @@ func (e *Env) tr(x *Expr) Val {
 					ps = nil
 					continue
 				}
+				n.inPat = true
 				pv := n.tr(pe)
 				if seqLike(pv) {
 					ps = append(ps, n.asSeq(pv))
 				} else {
 					ps = append(ps, n.rv(pv).T)
 				}
+				n.inPat = false
 			}
 			attrs += " :pattern (" + strings.Join(ps, " ") + ")"
 			body = "(! " + body + attrs + ")"
